@@ -42,6 +42,57 @@ def total_subclass_test(x):
     return all(isinstance(e, _a.Name) and e.id in B for e in ts)
 
 
+_CTOR_MEMO = {}
+
+
+def ctor_may_raise(res, fi, call):
+    """a constructor call of a package class whose (data)class defines its own `__post_init__` / `__init__` body that can
+    raise: decided by interpreting the constructor on the call's arguments — literals as written, everything else unknown.
+    None: the class has no code of its own to run (synthesised constructor); False: no path raises; True: some path does."""
+    if not isinstance(call.func, ast.Name):
+        return None
+    ci = res.class_by_name(call.func.id, fi.module)
+    if ci is None or not ci.is_dataclass():
+        return None
+    pi = ci.methods.get("__post_init__")
+    if pi is None or not any(isinstance(n, (ast.Raise, ast.Assert, ast.Call)) for n in ast.walk(pi.node)):
+        return None if pi is None else False
+    key = (id(res.p), fi.key, call.lineno, call.col_offset)
+    if key in _CTOR_MEMO:
+        return _CTOR_MEMO[key]
+    from .fdai import Interp, Unknown, PyRaise, Imprecise, explore
+    args, kwargs = [], {}
+
+    def absval(e, hint):
+        if isinstance(e, ast.Constant):
+            return e.value
+        if isinstance(e, ast.UnaryOp) and isinstance(e.op, ast.USub) and isinstance(e.operand, ast.Constant) and isinstance(e.operand.value, (int, float)):
+            return -e.operand.value
+        return Unknown(hint)
+    if any(isinstance(a, ast.Starred) for a in call.args) or any(k.arg is None for k in call.keywords):
+        _CTOR_MEMO[key] = True
+        return True
+
+    def go(o):
+        it = Interp(res.p, o)
+        a_ = [absval(a, f"arg{i}") for i, a in enumerate(call.args)]
+        k_ = {k.arg: absval(k.value, k.arg) for k in call.keywords}
+        try:
+            it.instantiate(ci, a_, k_)
+        except PyRaise as e:
+            return repr(e.exc)
+        return None
+    try:
+        outs = [r for _, r in explore(go, max_paths=300)]
+        r = any(x is not None for x in outs)
+    except Imprecise:
+        r = True
+    except Exception:
+        r = True
+    _CTOR_MEMO[key] = r
+    return r
+
+
 _HOSTILE_MEMO = {}
 
 
@@ -173,6 +224,10 @@ def exceptions_of(n, fi, summary, res):
                 out |= RAISING["json.loads"]
                 continue
             if d in TOTAL_CALLS or total_subclass_test(x) or (isinstance(x.func, ast.Attribute) and last in TOTAL_METHODS) or d.startswith("hashlib.") or d.startswith("time.") or d.startswith("datetime."):
+                continue
+            cm_ = ctor_may_raise(res, fi, x)
+            if cm_:
+                out.add("*")          # a record whose own __post_init__ can refuse the values it is given
                 continue
             tgts = res.resolve_call(fi, x)
             if tgts:
